@@ -38,6 +38,17 @@ def envGetNumStarts (env : String) (nAct nLocs : Nat) : Nat :=
 /-- `(torch.arange(k).repeat_interleave(B) % m) + lo` : row `r` is copy `r / B`. -/
 def startsOf (B k lo m : Nat) : List Nat := (List.range (k * B)).map (fun r => (r / B) % m + lo)
 
+/-- The generic function *as written* (token by token, every token regenerated from the source):
+no-depot branch `arange(k).<expand>(B) % num_loc`, depot branch `arange(a0, …).<expand>(B) % (num_loc + dm) + c`,
+`<expand>` = `repeat_interleave` (row `r` ↦ `r / B`) or `repeat` (row `r` ↦ `r mod k`).
+`Props/C12/Select.lean:genericStartsCode_eq` proves it equal to `startsOf` for the extracted tokens. -/
+def genericStartsCode (depot : Bool) (B k g : Nat) : List Nat :=
+  (List.range (k * B)).map (fun r =>
+    if depot then
+      ((if Params.opsDepotInterleave then r / B else r % k) + Params.opsDepotArangeStart)
+        % (g + Params.opsDepotModAdd) + Params.opsDepotPlus
+    else (if Params.opsNoDepotInterleave then r / B else r % k) % g)
+
 /-- `(lo, m)` of the *generic* `select_start_nodes(td, env, k)`; `genNumLoc = env.generator.num_loc`
 (or `0xFFFFFFFF` when the generator has none). -/
 def genericRule (env : String) (genNumLoc : Nat) : Nat × Nat :=
@@ -78,7 +89,11 @@ def opOrder (n : Nat) (mask : Nat → Bool) : List Nat :=
 /-- forced start of copy `j` of an instance with reset mask `mask`
 (`Params.opsOpClampMin` is the regenerated constant of `.clamp(min=1)`) -/
 def opPick (n : Nat) (mask : Nat → Bool) (j : Nat) : Nat :=
-  (opOrder n mask).getD (j % max Params.opsOpClampMin (feasCount n mask)) 0 + 1
+  -- `num_feasible` is the instance's own count (`Params.opsOpCountPerInstance`); a count reduced over the
+  -- batch is outside this per-instance model: nothing known
+  if Params.opsOpCountPerInstance then
+    (opOrder n mask).getD (j % max Params.opsOpClampMin (feasCount n mask)) 0 + 1
+  else 0
 
 /-- the `k` forced starts of one instance -/
 def opInstStarts (n k : Nat) (mask : Nat → Bool) : List Nat := (List.range k).map (opPick n mask)
